@@ -8,6 +8,7 @@ COQ_IMPORTS = "From FT Require Import Model.Base Model.Obs Model.Store Model.Sto
 CHECK_VO = ["Model/StoreCheck.v"]
 CHECKER = "c01_checker"
 CASE_TYPE = "hist_case"
+EXTRA = ["c01_pop"]   # populate loops: C05's cases and model, this property's oracle
 SHARD = 120
 RULE = ("case = (tensor tree of depth 1-3 with explicit defaults / empty sub-fibers, leaf default, history of "
         "1-10 public operations addressed by coordinate path); observation = state snapshot (raw tree, per-rank "
